@@ -574,7 +574,7 @@ def check(ctx):
 
 
 VARIANTS = [
-    M("str-to-dict-memo", "lena/context/functions.py", "def str_to_dict(s, value=_sentinel):", "_str_to_dict_cache = {}\n\n\ndef _memo(s, d):\n    _str_to_dict_cache[s] = d\n    return d\n\n\ndef str_to_dict(s, value=_sentinel):", ["C07-g"]),
+    M("str-to-dict-memo", "lena/context/functions.py", "def str_to_dict(s, value=_sentinel):", "_str_to_dict_cache = {}\n\n\ndef memo(s, d):\n    _str_to_dict_cache[s] = d\n    return d\n\n\ndef str_to_dict(s, value=_sentinel):", ["C07-g"]),
     M("intersection-level-per-argument", "lena/context/functions.py", "        to_delete = []\n        for key in res:\n            if key in d:\n                if d[key] != res[key]:\n                    if level == 1:\n                        to_delete.append(key)\n                    elif isinstance(res[key], dict) and isinstance(d[key], dict):\n                        res[key] = intersection(res[key], d[key], level=level-1)",
       "        level -= 1\n        to_delete = []\n        for key in res:\n            if key in d:\n                if d[key] != res[key]:\n                    if level == 0:\n                        to_delete.append(key)\n                    elif isinstance(res[key], dict) and isinstance(d[key], dict):\n                        res[key] = intersection(res[key], d[key], level=level)", ["C07-f"]),
     M("difference-level-kept", "lena/context/functions.py", "                res = difference(d1[key], d2[key], level-1)", "                res = difference(d1[key], d2[key], level)", ["C07-f"]),
